@@ -83,6 +83,12 @@ class Model:
             raise Unsupported(f"subscript {path}[..] has no contract@{node.lineno}")
         return h(eng, st, idx, node)
 
+    def setitem(self, eng, st, path, idx, v, node):
+        h = getattr(self, "setitems", {}).get(path)
+        if h is None:
+            raise Unsupported(f"subscript store {path}[..] = .. has no contract@{node.lineno}")
+        return h(eng, st, idx, v, node)
+
     def len_(self, eng, st, path, node):
         h = self.lens.get(path)
         if h is None:
